@@ -109,7 +109,12 @@ Section WTree.
 
   Definition bw_okI (w : bw) (es : list entry) : Prop := bw_ok w es /\ bw_interval w = wc_interval c.
   Definition ents (p : gentry) : Prop :=
-    exists w, bw_okI w (snd p) /\ bw_finish w = Done (em_bytes (fst p)).
+    (exists w, bw_okI w (snd p) /\ bw_finish w = Done (em_bytes (fst p))) /\
+    (snd p = [] -> em_level (fst p) = 0).
+  Definition nz (p : gentry) : Prop := 1 <= em_level (fst p).
+
+  Lemma ents_intro e es w : bw_okI w es -> bw_finish w = Done (em_bytes e) -> (es = [] -> em_level e = 0) -> ents (e, es).
+  Proof. intros A B C. split; [exists w; cbn [fst snd]; auto|exact C]. Qed.
 
   Fixpoint uplink (pes : N -> list entry) (lvl : N) (up : list bw) : Prop :=
     match up with
@@ -141,8 +146,10 @@ Section WTree.
     injection E as ->. split; [reflexivity|]. intro Hn. subst es. discriminate.
   Qed.
 
-  Definition Gst (s : vsink) (lg : list emitted) (gl : list gentry) (pes : N -> list entry) (ins : list entry) : Prop :=
+  Definition Gst0 (s : vsink) (lg : list emitted) (gl : list gentry) (pes : N -> list entry) (ins : list entry) : Prop :=
     sink_ok compress c s lg /\ map fst gl = rev lg /\ Forall ents gl /\ TI L gl pes ins.
+  Definition Gst (s : vsink) (lg : list emitted) (gl : list gentry) (pes : N -> list entry) (ins : list entry) : Prop :=
+    Gst0 s lg gl pes ins /\ Forall nz gl.
 
   Lemma cascade_tree : forall up s lg cur lvl s' lg' blocks gl pes ins,
     cascade_from vsink vs_wr vs_count compress c s lg cur lvl up = Done (s', lg', blocks) ->
@@ -170,7 +177,7 @@ Section WTree.
           destruct (cwb vsink vs_wr vs_count compress c s cur lvl) as [[[s1 cur'] e]| |] eqn:Ec; cbn [bind] in H; try discriminate.
           destruct (cascade_from vsink vs_wr vs_count compress c s1 (e :: lg) parent' (lvl - 1) up) as [[[s2 lg2] ups]| |] eqn:Er; cbn [bind] in H; try discriminate.
           injection H as <- <- <-.
-          destruct HG as (Hs & Hm & He & HT). destruct Hcur as [Hcok Hci]. destruct Hpar as [Hpok Hpi].
+          destruct HG as ((Hs & Hm & He & HT) & Hnz). destruct Hcur as [Hcok Hci]. destruct Hpar as [Hpok Hpi].
           pose proof (cwb_layout compress decompress c codec_ok s lg cur lvl s1 cur' e Ec Hs) as Hs1.
           pose proof (cwb_offset s cur lvl s1 cur' e Ec) as Hoff.
           destruct (cwb_spec vsink vs_wr vs_count compress c s cur lvl s1 cur' e Ec) as (Hf & Hel & Hcur').
@@ -181,9 +188,10 @@ Section WTree.
           assert (Hitem : item_of (e, pes lvl) = (lk, be_bytes 8 (vs_count s))).
           { unfold item_of. cbn [fst snd]. rewrite Hlk, Hoff. reflexivity. }
           assert (HG1 : Gst s1 (e :: lg) gl1 pes1 ins).
-          { split; [exact Hs1|]. split; [unfold gl1; rewrite map_app; cbn [map fst rev]; rewrite Hm; reflexivity|].
+          { split; [|unfold gl1; apply Forall_app; split; [exact Hnz|]; constructor; [unfold nz; cbn [fst]; lia|constructor]].
+            split; [exact Hs1|]. split; [unfold gl1; rewrite map_app; cbn [map fst rev]; rewrite Hm; reflexivity|].
             split; [unfold gl1; apply Forall_app; split; [exact He|]; constructor; [|constructor];
-                    exists cur; cbn [fst snd]; split; [split; assumption|exact Hf]|].
+                    apply (ents_intro _ _ cur); [split; assumption|exact Hf|intro Hx; exfalso; exact (Hne Hx)]|].
             unfold gl1, pes1. apply TI_emit; [exact HT | lia | exact Hel]. }
           assert (Hpar1 : bw_okI parent' (pes1 (lvl - 1))).
           { unfold pes1, upd. rewrite N.eqb_refl. rewrite Hitem. split; [exact Hpok'|congruence]. }
@@ -237,7 +245,7 @@ Section WTree.
     destruct (bw_insert_ok (w_data st) _ k v d Hdok Ed) as [Hdok' Hdi'].
     set (pes0 := upd pes (L + 1) (pes (L + 1) ++ [(k, v)])).
     assert (HG0 : Gst (w_sink st) (w_log st) gl pes0 (ins ++ [(k, v)])).
-    { destruct HG as (A & B & C & T). split; [exact A|]. split; [exact B|]. split; [exact C|]. apply TI_data_insert. exact T. }
+    { destruct HG as ((A & B & C & T) & Z). split; [|exact Z]. split; [exact A|]. split; [exact B|]. split; [exact C|]. apply TI_data_insert. exact T. }
     assert (Hd0 : bw_okI d (pes0 (L + 1))) by (unfold pes0, upd; rewrite N.eqb_refl; split; [exact Hdok'|congruence]).
     assert (Hlen' : len (rev (w_idx st)) = L + 1) by (rewrite len_length, rev_length, <- len_length; exact Hlen).
     assert (Hidx0 : uplink pes0 (L + 1) (rev (w_idx st))).
@@ -251,7 +259,7 @@ Section WTree.
     destruct Hdeep as [Hpok Hpi].
     destruct (bw_insert deepest last_k (be_bytes 8 (vs_count (w_sink st)))) as [deepest'| |] eqn:Ep; cbn [bind] in H; try discriminate.
     destruct (cwb vsink vs_wr vs_count compress c (w_sink st) d (L + 1)) as [[[s1 d'] e]| |] eqn:Ec; cbn [bind] in H; try discriminate.
-    destruct HG0 as (Hs & Hm & He & HT).
+    destruct HG0 as ((Hs & Hm & He & HT) & Hnz).
     pose proof (cwb_layout compress decompress c codec_ok _ _ d (L + 1) s1 d' e Ec Hs) as Hs1.
     pose proof (cwb_offset _ d (L + 1) s1 d' e Ec) as Hoff.
     destruct (cwb_spec vsink vs_wr vs_count compress c _ d (L + 1) s1 d' e Ec) as (Hf & Hel & Hd').
@@ -262,9 +270,10 @@ Section WTree.
     assert (Hitem : item_of (e, pes0 (L + 1)) = (last_k, be_bytes 8 (vs_count (w_sink st)))).
     { unfold item_of. cbn [fst snd]. rewrite Hlk, Hoff. reflexivity. }
     assert (HG1 : Gst s1 (e :: w_log st) gl1 pes1 (ins ++ [(k, v)])).
-    { split; [exact Hs1|]. split; [unfold gl1; rewrite map_app; cbn [map fst rev]; rewrite Hm; reflexivity|].
+    { split; [|unfold gl1; apply Forall_app; split; [exact Hnz|]; constructor; [unfold nz; cbn [fst]; lia|constructor]].
+      split; [exact Hs1|]. split; [unfold gl1; rewrite map_app; cbn [map fst rev]; rewrite Hm; reflexivity|].
       split; [unfold gl1; apply Forall_app; split; [exact He|]; constructor; [|constructor];
-              exists d; cbn [fst snd]; split; [exact Hd0|exact Hf]|].
+              apply (ents_intro _ _ d); [exact Hd0|exact Hf|intro Hx; exfalso; exact (Hne Hx)]|].
       unfold gl1, pes1. apply TI_emit; [exact HT | lia | exact Hel]. }
     assert (P1L : pes1 L = pes0 L ++ [(last_k, be_bytes 8 (vs_count (w_sink st)))]).
     { unfold pes1, upd. replace (L + 1 - 1) with L by lia. rewrite N.eqb_refl. rewrite Hitem. reflexivity. }
@@ -311,21 +320,21 @@ Section WTree.
     flush_from vsink vs_wr vs_count compress c s lg cur lvl up = Done (s', lg', off) ->
     lvl = len up -> lvl <= L ->
     Gst s lg gl pes ins -> bw_okI cur (pes lvl) -> uplink pes lvl up ->
-    exists gl' pes', Gst s' lg' gl' pes' ins /\ (forall k, k <= lvl -> pes' k = []) /\ (forall k, lvl < k -> pes' k = pes k) /\
-      exists gl0 e0 es0, gl' = gl0 ++ [(e0, es0)] /\ em_level e0 = 0 /\ em_offset e0 = off.
+    exists gl' pes', Gst0 s' lg' gl' pes' ins /\ (forall k, k <= lvl -> pes' k = []) /\ (forall k, lvl < k -> pes' k = pes k) /\
+      exists gl0 e0 es0, gl' = gl0 ++ [(e0, es0)] /\ em_level e0 = 0 /\ em_offset e0 = off /\ Forall nz gl0.
   Proof.
     induction up as [|parent up IH]; intros s lg cur lvl s' lg' off gl pes ins H Hlvl HL HG Hcur Hup; cbn [flush_from] in H.
     - change (len (@nil bw)) with 0 in Hlvl. subst lvl.
       assert (Hroot : forall s1 cur' e, cwb vsink vs_wr vs_count compress c s cur 0 = Done (s1, cur', e) ->
-                exists gl' pes', Gst s1 (e :: lg) gl' pes' ins /\ (forall k, k <= 0 -> pes' k = []) /\ (forall k, 0 < k -> pes' k = pes k) /\
-                  exists gl0 e0 es0, gl' = gl0 ++ [(e0, es0)] /\ em_level e0 = 0 /\ em_offset e0 = vs_count s).
-      { intros s1 cur' e Ec. destruct HG as (Hs & Hm & He & HT). destruct Hcur as [Hcok Hci].
+                exists gl' pes', Gst0 s1 (e :: lg) gl' pes' ins /\ (forall k, k <= 0 -> pes' k = []) /\ (forall k, 0 < k -> pes' k = pes k) /\
+                  exists gl0 e0 es0, gl' = gl0 ++ [(e0, es0)] /\ em_level e0 = 0 /\ em_offset e0 = vs_count s /\ Forall nz gl0).
+      { intros s1 cur' e Ec. destruct HG as ((Hs & Hm & He & HT) & Hnz). destruct Hcur as [Hcok Hci].
         pose proof (cwb_layout compress decompress c codec_ok s lg cur 0 s1 cur' e Ec Hs) as Hs1.
         pose proof (cwb_offset s cur 0 s1 cur' e Ec) as Hoff.
         destruct (cwb_spec vsink vs_wr vs_count compress c s cur 0 s1 cur' e Ec) as (Hf & Hel & _).
         exists (gl ++ [(e, pes 0)]), (upd pes 0 []).
         split; [split; [exact Hs1|]; split; [rewrite map_app; cbn [map fst rev]; rewrite Hm; reflexivity|];
-                split; [apply Forall_app; split; [exact He|]; constructor; [|constructor]; exists cur; cbn [fst snd]; split; [split; assumption|exact Hf]|];
+                split; [apply Forall_app; split; [exact He|]; constructor; [|constructor]; apply (ents_intro _ _ cur); [split; assumption|exact Hf|intros _; exact Hel]|];
                 apply TI_emit_root; assumption|].
         split; [intros k Hk; unfold upd; destruct (N.eqb_spec k 0); [reflexivity|lia]|].
         split; [intros k Hk; unfold upd; destruct (N.eqb_spec k 0); [lia|reflexivity]|].
@@ -337,7 +346,7 @@ Section WTree.
       destruct (bw_last cur) as [lk|] eqn:El.
       + destruct (bw_insert parent lk (be_bytes 8 (vs_count s))) as [parent'| |] eqn:Ep; cbn [bind] in H; try discriminate.
         destruct (cwb vsink vs_wr vs_count compress c s cur lvl) as [[[s1 cur'] e]| |] eqn:Ec; cbn [bind] in H; try discriminate.
-        destruct HG as (Hs & Hm & He & HT). destruct Hcur as [Hcok Hci]. destruct Hpar as [Hpok Hpi].
+        destruct HG as ((Hs & Hm & He & HT) & Hnz). destruct Hcur as [Hcok Hci]. destruct Hpar as [Hpok Hpi].
         pose proof (cwb_layout compress decompress c codec_ok s lg cur lvl s1 cur' e Ec Hs) as Hs1.
         pose proof (cwb_offset s cur lvl s1 cur' e Ec) as Hoff.
         destruct (cwb_spec vsink vs_wr vs_count compress c s cur lvl s1 cur' e Ec) as (Hf & Hel & _).
@@ -348,9 +357,10 @@ Section WTree.
         assert (Hitem : item_of (e, pes lvl) = (lk, be_bytes 8 (vs_count s))).
         { unfold item_of. cbn [fst snd]. rewrite Hlk, Hoff. reflexivity. }
         assert (HG1 : Gst s1 (e :: lg) gl1 pes1 ins).
-        { split; [exact Hs1|]. split; [unfold gl1; rewrite map_app; cbn [map fst rev]; rewrite Hm; reflexivity|].
+        { split; [|unfold gl1; apply Forall_app; split; [exact Hnz|]; constructor; [unfold nz; cbn [fst]; lia|constructor]].
+          split; [exact Hs1|]. split; [unfold gl1; rewrite map_app; cbn [map fst rev]; rewrite Hm; reflexivity|].
           split; [unfold gl1; apply Forall_app; split; [exact He|]; constructor; [|constructor];
-                  exists cur; cbn [fst snd]; split; [split; assumption|exact Hf]|].
+                  apply (ents_intro _ _ cur); [split; assumption|exact Hf|intro Hx; exfalso; exact (Hne Hx)]|].
           unfold gl1, pes1. apply TI_emit; [exact HT | lia | exact Hel]. }
         assert (Hpar1 : bw_okI parent' (pes1 (lvl - 1))).
         { unfold pes1, upd. rewrite N.eqb_refl. rewrite Hitem. split; [exact Hpok'|congruence]. }
@@ -390,7 +400,7 @@ Section WTree.
       TI L gl' (fun _ => []) ins /\
       vs_bytes s = body ++ trailer_bytes m /\ vs_count s = len (vs_bytes s) /\
       m_version m = FormatV2 /\ m_codec m = wc_codec c /\ m_count m = w_count st /\ m_levels m = u8 (len (w_idx st) - 1) /\
-      exists gl0 e0 es0, gl' = gl0 ++ [(e0, es0)] /\ em_level e0 = 0 /\ em_offset e0 = m_root m.
+      exists gl0 e0 es0, gl' = gl0 ++ [(e0, es0)] /\ em_level e0 = 0 /\ em_offset e0 = m_root m /\ Forall nz gl0.
   Proof.
     intros H (HG & Hd & Hidx & Hlen). unfold w_finish in H.
     assert (Hlen' : len (rev (w_idx st)) = L + 1) by (rewrite len_length, rev_length, <- len_length; exact Hlen).
@@ -416,7 +426,7 @@ Section WTree.
         destruct (bw_insert deepest last_k (be_bytes 8 (vs_count (w_sink st)))) as [deepest'| |] eqn:Ep; cbn [bind] in E; try discriminate.
         destruct (cwb vsink vs_wr vs_count compress c (w_sink st) (w_data st) (L + 1)) as [[[s2 d'] e]| |] eqn:Ec; cbn [bind] in E; try discriminate.
         injection E as <- <- <-.
-        destruct HG as (Hs & Hm & He & HT).
+        destruct HG as ((Hs & Hm & He & HT) & Hnz).
         pose proof (cwb_layout compress decompress c codec_ok _ _ (w_data st) (L + 1) s2 d' e Ec Hs) as Hs1.
         pose proof (cwb_offset _ (w_data st) (L + 1) s2 d' e Ec) as Hoff.
         destruct (cwb_spec vsink vs_wr vs_count compress c _ (w_data st) (L + 1) s2 d' e Ec) as (Hf & Hel & _).
@@ -427,9 +437,10 @@ Section WTree.
         assert (Hitem : item_of (e, pes (L + 1)) = (last_k, be_bytes 8 (vs_count (w_sink st)))).
         { unfold item_of. cbn [fst snd]. rewrite Hlk, Hoff. reflexivity. }
         exists gl1, pes1. split.
-        + split; [exact Hs1|]. split; [unfold gl1; rewrite map_app; cbn [map fst rev]; rewrite Hm; reflexivity|].
+        + split; [|unfold gl1; apply Forall_app; split; [exact Hnz|]; constructor; [unfold nz; cbn [fst]; lia|constructor]].
+          split; [exact Hs1|]. split; [unfold gl1; rewrite map_app; cbn [map fst rev]; rewrite Hm; reflexivity|].
           split; [unfold gl1; apply Forall_app; split; [exact He|]; constructor; [|constructor];
-                  exists (w_data st); cbn [fst snd]; split; [split; assumption|exact Hf]|].
+                  apply (ents_intro _ _ (w_data st)); [split; assumption|exact Hf|intro Hx; exfalso; exact (Hne Hx)]|].
           unfold gl1, pes1. apply TI_emit; [exact HT | lia | exact Hel].
         + split; [unfold pes1, upd; destruct (N.eqb_spec (L + 1) (L + 1 - 1)); [lia|]; rewrite N.eqb_refl; reflexivity|].
           assert (Erv : rev (rev (deepest' :: above)) = deepest' :: above) by apply rev_involutive.
@@ -483,7 +494,7 @@ Section WTree.
   Lemma WT_init : L < 256 -> WT (w_new vsink c vs_empty) [] (fun _ => []) [].
   Proof.
     intro HL. unfold WT, w_new. cbn [w_sink w_log w_data w_idx].
-    split; [split; [split; [constructor|reflexivity]|]; split; [reflexivity|]; split; [constructor|apply TI_init]|].
+    split; [split; [|constructor]; split; [split; [constructor|reflexivity]|]; split; [reflexivity|]; split; [constructor|apply TI_init]|].
     split; [split; [apply bw_new_ok|reflexivity]|].
     split; [rewrite repeat_rev'; apply uplink_repeat; reflexivity|].
     rewrite len_length, repeat_length. lia.
@@ -501,6 +512,30 @@ Section WTree.
       exists gl', pes'. rewrite <- app_assoc in HW'. exact HW'.
   Qed.
 
+  Lemma w_insert_count st k v st' :
+    w_insert vsink vs_wr vs_count compress c st k v = Done st' -> w_count st' = w_count st + 1.
+  Proof.
+    unfold w_insert. destruct (bw_insert (w_data st) k v) as [d| |]; cbn [bind]; try discriminate.
+    destruct (wc_block_size c <=? bw_size d); [|intro H; injection H as <-; reflexivity].
+    destruct (bw_last d) as [lk|]; [|intro H; injection H as <-; reflexivity].
+    destruct (rev (w_idx st)) as [|deepest above]; [intro H; injection H as <-; reflexivity|].
+    destruct (bw_insert deepest lk _) as [deepest'| |]; cbn [bind]; try discriminate.
+    destruct (cwb vsink vs_wr vs_count compress c (w_sink st) d (L + 1)) as [[[s1 d'] e]| |]; cbn [bind]; try discriminate.
+    destruct (rev (deepest' :: above)) as [|root sl]; [discriminate|].
+    destruct (rev sl) as [|cur up]; [intro H; injection H as <-; reflexivity|].
+    destruct (cascade_from vsink vs_wr vs_count compress c s1 _ cur L up) as [[[s2 lg2] blocks]| |]; cbn [bind]; try discriminate.
+    intro H; injection H as <-; reflexivity.
+  Qed.
+
+  Lemma w_inserts_at_count : forall es st i j st',
+    w_inserts_at vsink vs_wr vs_count compress c st es i = (j, Done st') -> w_count st' = w_count st + len es.
+  Proof.
+    induction es as [|[k v] es IH]; intros st i j st' H; cbn [w_inserts_at] in H.
+    - injection H as _ <-. change (len (@nil entry)) with 0. lia.
+    - destruct (w_insert vsink vs_wr vs_count compress c st k v) as [st1| |] eqn:E; try discriminate.
+      rewrite (IH _ _ _ _ H), (w_insert_count _ _ _ _ E), len_cons. lia.
+  Qed.
+
   (* the whole run on a plain sink: the file is the frames of the emitted blocks followed by the
      trailer; the blocks form the index tree over exactly the inserted entries *)
   Theorem w_run_tree es i s lg m : L < 256 ->
@@ -509,15 +544,17 @@ Section WTree.
       laid_out compress c (rev lg) body /\ map fst gl = rev lg /\ Forall ents gl /\
       TI L gl (fun _ => []) es /\
       vs_bytes s = body ++ trailer_bytes m /\ vs_count s = len (vs_bytes s) /\
-      m_version m = FormatV2 /\ m_codec m = wc_codec c /\ m_levels m = u8 L /\
-      exists gl0 e0 es0, gl = gl0 ++ [(e0, es0)] /\ em_level e0 = 0 /\ em_offset e0 = m_root m.
+      m_version m = FormatV2 /\ m_codec m = wc_codec c /\ m_count m = len es /\ m_levels m = u8 L /\
+      exists gl0 e0 es0, gl = gl0 ++ [(e0, es0)] /\ em_level e0 = 0 /\ em_offset e0 = m_root m /\ Forall nz gl0.
   Proof.
     intros HL H. unfold w_run_gen in H.
     destruct (w_inserts_at vsink vs_wr vs_count compress c (w_new vsink c vs_empty) es 0) as [j [st| |]] eqn:E; try (injection H as _ H; discriminate).
     injection H as _ H.
     destruct (w_inserts_at_tree es _ 0 j st [] (fun _ => []) [] E (WT_init HL)) as (gl1 & pes1 & HW1). cbn [app] in HW1.
     destruct (w_finish_tree st s lg m gl1 pes1 es H HW1) as (gl' & body & A1 & A2 & A3 & A4 & A5 & A6 & A7 & A8 & A9 & A10 & A11).
-    exists gl', body. repeat (split; [assumption|]). split; [|exact A11].
+    exists gl', body. repeat (split; [assumption|]).
+    split; [rewrite A9, (w_inserts_at_count _ _ _ _ _ E); unfold w_new; cbn [w_count]; lia|].
+    split; [|exact A11].
     rewrite A10. destruct HW1 as (_ & _ & _ & Hlen). rewrite Hlen. f_equal. lia.
   Qed.
 End WTree.
